@@ -595,6 +595,13 @@ impl<'tcx> Cx<'tcx> {
                 let mut o = J::obj().ks("ty", self.ty_s(*t)).ks("tyconst", format!("{}", ct));
                 if let Some(v) = ct.try_to_target_usize(tcx) {
                     o = o.k("int", J::UInt(v as u128));
+                } else if let Some(val) = ct.try_to_value() {
+                    // constants of other integer widths (e.g. the bounds of a `u64` range pattern)
+                    if let Some(leaf) = val.try_to_leaf() {
+                        if matches!(t.kind(), TyKind::Uint(_) | TyKind::Bool | TyKind::Char) {
+                            o = o.k("int", J::UInt(leaf.to_bits_unchecked()));
+                        }
+                    }
                 }
                 o.done()
             }
